@@ -32,12 +32,18 @@ Record request := {
 
 Record env := {
   e_first_run : bool;        (* globalContext.firstRun *)
-  e_auth_required : bool;    (* len(users) != 0 *)
+  e_auth_present : bool;     (* globalContext.auth != nil: decided at start-up, see [boot] below *)
+  e_users : bool;            (* len(globalContext.auth.users) != 0 (false when there is no Auth) *)
   e_https : bool;            (* web.httpsServer.server != nil *)
   e_force_https : bool;      (* TLS.ForceHTTPS && TLS.Enabled && TLS.PortHTTPS != 0 *)
   e_now : N;                 (* clock, seconds *)
   e_ttl : N;                 (* sessionTTL *)
 }.
+
+(** [authRequired := globalContext.auth != nil && globalContext.auth.authRequired()]
+    as optionalAuth computes it (GL-inet mode off: [authRequired()] is
+    [len(a.users) != 0]). *)
+Definition e_auth_required (e : env) : bool := e_auth_present e && e_users e.
 
 Record world (A : Type) := { w_app : A; w_sess : sstate }.
 Arguments w_app {A}. Arguments w_sess {A}. Arguments Build_world {A}.
@@ -188,6 +194,61 @@ Definition http_register_chain (m : bytes) : list wrapper :=
   [WPostInstall; WOptionalAuth; WGzip; WEnsure m].
 
 End Wrappers.
+
+(** * Start-up: what decides [e_auth_present]
+
+    home.go [run]: [globalContext.auth, err = initUsers(); fatalOnError(err)],
+    then [initWeb] / [web.start].  [initUsers] calls [InitAuth], which answers
+    nil when bbolt cannot open data/sessions.db, and turns that nil into an
+    error.  The four places where this can go wrong are read off the source by
+    tools/routes ([Gen.Routes.startup]); the model takes them as parameters so
+    that the theorem says what they are needed for. *)
+
+Record boot_in := {
+  b_users : bool;            (* the configuration lists at least one user *)
+  b_db_opens : bool;         (* bbolt.Open(data/sessions.db) succeeds *)
+}.
+
+Record boot_code := {
+  bc_nil_checked : bool;     (* initUsers: [if auth == nil { ... return ... }] directly follows [auth = InitAuth(...)] *)
+  bc_fail_ret_err : bool;    (* ... and every return in that block carries an error expression that is not nil *)
+  bc_run_fatal : bool;       (* run: [fatalOnError(err)] directly follows [globalContext.auth, err = initUsers()] *)
+  bc_fatal_exits : bool;     (* fatalOnError: [if err != nil { log.Fatal(err) }] *)
+  bc_assigns_ok : bool;      (* globalContext.auth is assigned nowhere else, except reset to nil in cleanup after web.close *)
+}.
+
+(** [InitAuth]: is the result non-nil? *)
+Definition init_auth (b : boot_in) : bool := b_db_opens b.
+
+(** [initUsers]: (auth != nil, err != nil). *)
+Definition init_users (k : boot_code) (b : boot_in) : bool * bool :=
+  if init_auth b then (true, false)
+  else if bc_nil_checked k then (false, bc_fail_ret_err k)
+  else (false, false).
+
+Inductive boot_out :=
+  | BootFatal                                   (* the process exits before any listener exists *)
+  | BootServe (auth_present users : bool).      (* initWeb / web.start: requests are served with this Auth *)
+
+Definition boot (k : boot_code) (b : boot_in) : boot_out :=
+  let '(a, err) := init_users k b in
+  if err && bc_run_fatal k && bc_fatal_exits k then BootFatal
+  else BootServe a (a && b_users b).
+
+Definition boot_code_ok (k : boot_code) : bool :=
+  bc_nil_checked k && bc_fail_ret_err k && bc_run_fatal k && bc_fatal_exits k && bc_assigns_ok k.
+
+(** The environment of the requests served after [boot]: everything but the
+    two start-up flags is free. *)
+Definition env_after (o : boot_out) (e : env) : Prop :=
+  match o with
+  | BootFatal => False
+  | BootServe p u => e_auth_present e = p /\ e_users e = u
+  end.
+
+Definition with_boot (p u : bool) (e : env) : env :=
+  {| e_first_run := e_first_run e; e_auth_present := p; e_users := u; e_https := e_https e;
+     e_force_https := e_force_https e; e_now := e_now e; e_ttl := e_ttl e |}.
 
 (** * Routes, as the translator lists them *)
 
